@@ -13,24 +13,18 @@ open Splipy.MP
 theorem facesOf_two_or_one (ktol : ℚ) (r : Numbered) (k : ℕ) (fs : List Face) (h : r.facesOf ktol k = .ok fs) :
     ∀ f ∈ fs, f.owner < f.neighbor ∨ f.neighbor = -1 := by
   unfold Numbered.facesOf at h
-  simp only [bind, Except.bind, pure, Except.pure] at h
   split at h
   · cases h
-  · split at h
+  · rename_i l _
+    simp only at h
+    split at h
+    · rename_i hall
+      simp only [Except.ok.injEq] at h
+      subst h
+      intro f hf
+      have := (List.all_eq_true.1 hall) f hf
+      simpa using this
     · cases h
-    · split at h
-      · cases h
-      · split at h
-        · cases h
-        · rename_i out _
-          split at h
-          · rename_i hall
-            simp only [Except.ok.injEq] at h
-            subst h
-            intro f hf
-            have := (List.all_eq_true.1 hall) f hf
-            simpa using this
-          · cases h
 
 /-- … hence of the whole model (any number of patches: induction over the top nodes). -/
 theorem faces_two_or_one (ktol : ℚ) (r : Numbered) (fs : List Face) (h : r.faces ktol = .ok fs) :
